@@ -249,7 +249,10 @@ def gen_body(r):
     nbytes = r.choice([0, 1, 4, 7, 8, 9, 40])
     body = bytes(r.randrange(256) for _ in range(nbytes))
     sg = r.choice(["", "u", "s", "a{sv}", "(ii)", "y" * 255, "y" * 256, "(", "a", "a{vs}", "()", "uu", "é", "z"])
-    return "raw:%s:%s:%d" % (hx(body), hx(sg), r.choice([0, 0, 1, 2]))
+    nfds = r.choice([0, 0, 1, 2, 3])
+    # some of the attached handles have had their descriptor taken (UnixFd::take_raw_fd on a clone): marshal must refuse
+    taken = r.randrange(1, nfds + 1) if nfds and r.random() < 0.3 else 0
+    return "raw:%s:%s:%d%s" % (hx(body), hx(sg), nfds, ":%d" % taken if taken else "")
 
 
 class Msg:
@@ -360,7 +363,8 @@ def judge_marshal(m, impl, model):
     body_len = 0 if bhex == "-" else len(bhex) // 2
     sig_ok = model.get("sigok")          # filled by the caller from the model's verdict on the signature (C07-proved validator)
     names_ok = m.names_valid()
-    should_accept = (m.typ != 0 and names_ok and (body_len == 0 or sig_ok))
+    live = int(impl.get("L", nf))
+    should_accept = (m.typ != 0 and names_ok and (body_len == 0 or sig_ok) and m.required_present() and live == nf)
     H = impl["H"]
     if H == "err":
         if should_accept and model["H"] != "err":
@@ -370,6 +374,10 @@ def judge_marshal(m, impl, model):
             viol.append("a message of type Invalid was marshalled")
         if not names_ok:
             viol.append("a message with an invalid name was marshalled")
+        if live != nf:
+            viol.append("a message whose body holds a descriptor handle whose descriptor was taken was marshalled")
+        if m.typ != 0 and not m.required_present():
+            viol.append("a message that lacks a header field its type requires was marshalled")
         if body_len and sig_ok is False:
             viol.append("a message with an invalid body signature was marshalled")
         hb = bytes.fromhex(H)
@@ -390,16 +398,15 @@ def judge_marshal(m, impl, model):
             if not (16 + hfl <= len(hb) < 16 + hfl + 8) or any(hb[16 + hfl:]):
                 viol.append("header field array length / zero padding wrong")
         # decode-back
-        d = parse_decoded(impl["D"])
-        if m.required_present():
-            if not d["ok"]:
-                viol.append("the library's decoder rejects the marshalled message")
-            else:
-                exp = expected_decoded(m, bhex, shex_, nf)
-                for k, v in exp.items():
-                    if d.get(k) != v:
-                        viol.append("decode-back differs in %s: %s instead of %s" % (k, str(d.get(k))[:60], v[:60]))
-                        break
+        d = parse_decoded(impl["D"])           # demanded for EVERY message that marshals
+        if not d["ok"]:
+            viol.append("the library's decoder rejects the marshalled message")
+        else:
+            exp = expected_decoded(m, bhex, shex_, nf)
+            for k, v in exp.items():
+                if d.get(k) != v:
+                    viol.append("decode-back differs in %s: %s instead of %s" % (k, str(d.get(k))[:60], v[:60]))
+                    break
     if impl["H"] != model["H"]:
         corr.append("header bytes / verdict: impl %s model %s" % (impl["H"][:80], model["H"][:80]))
     elif impl["H"] != "err" and impl["D"] != model["D"]:
@@ -410,7 +417,7 @@ def judge_marshal(m, impl, model):
 def model_line_for(m_line, impl_fields):
     """driver line for an `m` harness line: same arguments, body replaced by the reported B: triple"""
     parts = m_line.split(" ")
-    return " ".join(parts[:13] + ["B:" + impl_fields["B"]])
+    return " ".join(parts[:13] + ["B:" + impl_fields["B"]] + (["L:" + impl_fields["L"]] if "L" in impl_fields else []))
 
 
 def py_flags_line():
@@ -503,30 +510,35 @@ def msg_from_M(mtxt, serial):
 ANCHOR_FILES = ["rustbus/src/wire/marshal.rs", "rustbus/src/wire/unmarshal.rs", "rustbus/src/wire/util.rs",
                 "rustbus/src/wire/unmarshal_context.rs", "rustbus/src/wire/validate_raw.rs", "rustbus/src/params/validation.rs",
                 "rustbus/src/message_builder.rs", "rustbus/src/standard_messages.rs", "rustbus/src/connection/ll_conn.rs"]
-ANCHOR_HASH = "3f780f38ab073f88"
-
-
-def anchor_hash():
-    import hashlib
-    h = hashlib.blake2b(digest_size=8)
-    for f in ANCHOR_FILES:
-        try:
-            txt = open(os.path.join(vlib.REPO, f)).read()
-        except OSError:
-            txt = "<missing>"
-        # comments and white space do not count
-        txt = re.sub(r"//[^\n]*", "", txt)
-        h.update(" ".join(txt.split()).encode())
-    return h.hexdigest()
-
-
 def drifted(ctx):
-    """True when the anchored sources differ from the text the models were written against: the quick tier
-    then runs with the thorough generators. Recorded in the evidence; never a verdict by itself."""
-    h = anchor_hash()
-    ctx.extra["anchor_hash"] = h
-    ctx.extra["source_drift"] = (h != ANCHOR_HASH)
-    return h != ANCHOR_HASH
+    """True when the check does not run on the committed sources the models were written against: VERIF_REPO points at another
+    checkout (mutant testing), or the anchored files of the checkout under test differ from that checkout's own git HEAD
+    (uncommitted edits, untracked or missing anchored files). The quick tier then runs with the thorough generators. Recorded in
+    the evidence; never a verdict by itself. VERIF_NO_DRIFT_BOOST=1 switches the boost off (to measure detection at the true
+    quick sizes)."""
+    reasons = []
+    if os.environ.get("VERIF_REPO"):
+        reasons.append("VERIF_REPO is set")
+    try:
+        rc = subprocess.run(["git", "-C", vlib.REPO, "diff", "--quiet", "HEAD", "--"] + ANCHOR_FILES,
+                            stdout=subprocess.DEVNULL, stderr=subprocess.DEVNULL).returncode
+        if rc != 0:
+            reasons.append("anchored files differ from the checkout's HEAD")
+        un = subprocess.run(["git", "-C", vlib.REPO, "ls-files", "--others", "--exclude-standard", "--"] + ANCHOR_FILES,
+                            stdout=subprocess.PIPE, stderr=subprocess.DEVNULL, text=True).stdout.strip()
+        if un:
+            reasons.append("untracked anchored files")
+    except OSError:
+        reasons.append("git not available")
+    for f in ANCHOR_FILES:
+        if not os.path.exists(os.path.join(vlib.REPO, f)):
+            reasons.append("anchored file missing: " + f)
+    ctx.extra["source_drift"] = bool(reasons)
+    ctx.extra["source_drift_reasons"] = reasons
+    if os.environ.get("VERIF_NO_DRIFT_BOOST") == "1":
+        ctx.extra["drift_boost"] = "off (VERIF_NO_DRIFT_BOOST=1)"
+        return False
+    return bool(reasons)
 
 
 # ------------------------------------------------------------------ the OCaml driver against in-Coq evaluation (thorough tier)
@@ -673,6 +685,21 @@ def run(ctx):
                     m.dest, m.sender, m.err = v["dest"], v["sender"], v["err"]
                     msgs.append(m)
                     lines.append(m.line())
+    # sizes beyond 16 and 8 bits: bodies of 64 KiB and more (the body length field), 255 and more descriptors (UNIX_FDS)
+    for nbytes, nfd in [(65535, 0), (65536, 0), (65537, 1), (65536 + r.randrange(2, 5000), 0), (200 * 1024 + 3, 2),
+                        (8, 255), (8, 256), (0, 257), (16, 300 + r.randrange(50)), (65536 + 8, 256)]:
+        m = gen_msg(r, idx, 127)
+        idx += 1
+        m.kinds = ["sizes"]
+        m.typ, m.mode, m.stale = 4, "d", None
+        v = gen_valid_names(r)
+        m.rs = m.rs or 1
+        m.iface, m.member, m.path, m.dest, m.sender, m.err = v["iface"], v["member"], v["path"], v["dest"], v["sender"], v["err"]
+        payload = bytes(r.getrandbits(8) for _ in range(max(0, nbytes - 4)))
+        body = (struct.pack(">I" if m.bo == "B" else "<I", len(payload)) + payload) if nbytes >= 4 else b""
+        m.body = "raw:%s:%s:%d" % (hx(body), hx("ay"), nfd)
+        msgs.append(m)
+        lines.append(m.line())
     while len(lines) < n + ncorpus:
         m = gen_msg(r, idx)
         idx += 1
@@ -785,7 +812,8 @@ def run(ctx):
         for k in m.kinds:
             ctx.count("kind:" + k)
         body = f["B"].split(":")
-        ctx.count("body:" + ("empty" if body[0] == "-" else "nonempty") + ("+fds" if body[2] != "0" else ""))
+        ctx.count("body:" + ("empty" if body[0] == "-" else "nonempty") + ("+fds" if body[2] != "0" else "")
+                  + ("+taken" if f.get("L", body[2]) != body[2] else ""))
         viol, corr = judge_marshal(m, f, mf)
         if viol or corr:
             ctx.disagreements_checked += 1
@@ -812,7 +840,7 @@ def run(ctx):
         f = fields_of(o) if o.startswith("R:ok") else None
         rml.append("?" if f is None else "m d %s %d %d %d %s %s %s %s %s %s %s B:%s" % (
             m.bo, m.typ, m.flags, serial2, "-" if m.rs is None else m.rs, ohx(m.iface), ohx(m.dest), ohx(m.sender),
-            ohx(m.member), ohx(m.path), ohx(m.err), f["B"]))
+            ohx(m.member), ohx(m.path), ohx(m.err), f["B"] + (" L:" + f["L"] if "L" in f else "")))
     rmodel = run_sharded(drv, rml, "driver")
     for l, o, ml, mo in zip(rl, rout, rml, rmodel):
         ctx.case(l, nontrivial=True)
@@ -841,7 +869,7 @@ def run(ctx):
         ctx.case(l, nontrivial=True)
         f = parsed[i]
         want = "W:err" if f["H"] == "err" else "W:" + f["H"] + ("" if f["B"].split(":")[0] == "-" else f["B"].split(":")[0])
-        got = " ".join(o.split(" ")[1:]) if o.startswith("B:") else o
+        got = " ".join(t for t in o.split(" ") if not t.startswith(("B:", "L:"))) if o.startswith("B:") else o
         ctx.count("wire:" + ("err" if want == "W:err" else "sent"))
         if got != want:
             ctx.disagreements_checked += 1
@@ -883,9 +911,9 @@ def run(ctx):
         "dynheader.serial/signature/num_fds that disagree with the body; %d standard_messages / reply constructor calls, about a quarter "
         "of the pushed string arguments containing NUL (%d of them in the class of known finding D24); %d decoded messages given a "
         "different body and marshalled again; %d messages sent through a real connection and read at the peer end; HeaderFlags "
-        "exhaustively (3 x 256); a 64 MiB object path. A case is non-trivial when it has at least two header fields; distinct = distinct "
+        "exhaustively (3 x 256); a 64 MiB object path; %d messages with bodies of 64 KiB..200 KiB and/or 255..350 descriptors. A case is non-trivial when it has at least two header fields; distinct = distinct "
         "harness lines" % ("thorough" if thorough else "quick", sum(1 for l in lines if l.startswith("m ")), hg.get("type:0", 0), hg.get("kind:residues", 0),
-                           tot("kind:bad-"), tot("std:"), hg.get("known:D24", 0), tot("remarshal:"), tot("wire:")))
+                           tot("kind:bad-"), tot("std:"), hg.get("known:D24", 0), tot("remarshal:"), tot("wire:"), hg.get("kind:sizes", 0)))
 
 
 def replay(ctx, body):
@@ -902,7 +930,7 @@ def replay(ctx, body):
         om = run_proc(exe, ["m " + l[2:]])[1]
         f = fields_of(om[0])
         want = "W:err" if f["H"] == "err" else "W:" + f["H"] + ("" if f["B"].split(":")[0] == "-" else f["B"].split(":")[0])
-        got = " ".join(o[0].split(" ")[1:]) if o and o[0].startswith("B:") else (o or ["<crash>"])[0]
+        got = " ".join(t for t in o[0].split(" ") if not t.startswith(("B:", "L:"))) if o and o[0].startswith("B:") else (o or ["<crash>"])[0]
         print("line:", l[:300], "\nwire    :", got[:600], "\nexpected:", want[:600])
         print("REPRODUCED: the bytes on the wire are not header ++ body" if got != want else "not reproduced")
         return 1 if got != want else 0
